@@ -78,10 +78,39 @@ async def run_cases(s, cases, schema_name, cfg=None):
             serialisable = True
         except (TypeError, ValueError):
             serialisable = False
-        out.append({"response": resp, "raised": raised, "serialisable": serialisable,
-                    "calls": list(rec.calls), "tr_calls": list(rec.tr_calls),
-                    "ctx_ok": all(x.get("ctx_ok", True) for x in rec.calls)})
+        run = {"response": resp, "raised": raised, "serialisable": serialisable,
+               "calls": list(rec.calls), "tr_calls": list(rec.tr_calls),
+               "ctx_ok": all(x.get("ctx_ok", True) for x in rec.calls)}
+        # the SAME request once more on the same engine (same user code): nothing may be remembered from the first
+        # execution -- same response, same resolver invocations
+        rec.clear()
+        oracle_ref[0] = execgen.Oracle(s, c["oracle_seed"], c.get("adversarial", 0.08), c.get("fail", 0.08),
+                                       faults={tuple(p): k for p, k in (c.get("faults") or [])})
+        try:
+            resp2 = await engine.execute(c["query"], operation_name=c.get("opname"), variables=c["variables"],
+                                         context=ctx_obj, initial_value=execgen.realise(c.get("root")))
+            raised2 = None
+        except Exception as e:  # pylint: disable=broad-except
+            resp2, raised2 = {"data": None}, repr(e)
+
+        def sites(calls):
+            return sorted((repr(x["path"]), x["ptype"], x["field"], repr(sorted(x["args"].items(), key=repr))) for x in calls)
+        if raised2 != raised or _repeat_canon(resp2) != _repeat_canon(resp) or sites(rec.calls) != sites(run["calls"]):
+            run["repeat_differs"] = {"response": repr(resp2)[:2000], "raised": raised2,
+                                     "resolver_calls": sites(rec.calls)[:40]}
+        out.append(run)
     return out
+
+
+def _repeat_canon(resp):
+    import re
+
+    def txt(x):
+        # engine-authored messages may quote the repr of a user object: addresses differ between two executions
+        return re.sub(r"0x[0-9a-fA-F]+", "0x", json.dumps(x, sort_keys=True, default=repr))
+    errs = sorted(txt(e) for e in (resp.get("errors") or [])) if isinstance(resp, dict) else None
+    data = txt(resp.get("data")) if isinstance(resp, dict) else repr(resp)
+    return data, errs
 
 
 class RecView:
@@ -254,7 +283,8 @@ def run_property(pid, tier_, bits, explore_kwargs, property_files, extra_python_
     gate = common.grep_gate()
     proofs_ok = b["ok"] and not gate
     meta, results = explore(tier_, seed, pid, evals=IMPL_EVAL + SPEC_EVAL, **explore_kwargs)
-    total = nontriv = 0
+    total = 0
+    distinct_nt = set()
     impl_mm, viol = [], []
     for fi, (mt, (ok, so, se)) in enumerate(zip(meta, results)):
         s, cases, asts, runs = mt[:4]
@@ -268,7 +298,8 @@ def run_property(pid, tier_, bits, explore_kwargs, property_files, extra_python_
         mm = set(common.parse_Z_list(so, "impl_mismatch") or [])
         for i, (c, r) in enumerate(zip(cases, runs)):
             if nontrivial(c, r):
-                nontriv += 1
+                distinct_nt.add((fi, c["query"], json.dumps(c["variables"], sort_keys=True, default=repr), c.get("opname"),
+                                 c["oracle_seed"], repr(c.get("faults"))))
             why = []
             v = verdicts[i] if i < len(verdicts) else 0
             for bit, name in BIT_NAMES.items():
@@ -278,6 +309,8 @@ def run_property(pid, tier_, bits, explore_kwargs, property_files, extra_python_
                 why += extra_python_check(c, r)
             if mixed and r["raised"]:
                 why.append("execute raised %s under per-field concurrency settings %r" % (r["raised"], mixed))
+            if r.get("repeat_differs"):
+                why.append("the same request executed again on the same engine is answered differently: %r" % (r["repeat_differs"],))
             if why:
                 viol.append((s, c, r, why))
             elif i in mm:
@@ -310,7 +343,7 @@ def run_property(pid, tier_, bits, explore_kwargs, property_files, extra_python_
         "trusted_base": common.TRUSTED_BASE + [
             "Print Assumptions: %d theorems closed; axioms: %s" % (assum["closed"], assum["axioms"] or "none")],
         "theorems": [n for n in names if n.startswith(pid + "_")],
-        "evaluations": total, "distinct_nontrivial": nontriv, "rule": rule,
+        "evaluations": total, "distinct_nontrivial": len(distinct_nt), "rule": rule,
         "traces_validated_against_impl": total,
         "impl_model_mismatches": len(impl_mm), "property_violations": len(viol),
         "samples": [{"query": c["query"], "variables": c["variables"], "faults": c.get("faults")}
